@@ -696,6 +696,8 @@ LEVEL_NOTE = ("Trusted: Lean kernel; the expression translator tools/props/c20_t
               "approximation with error <= sqrt(2(1-lim)); validated numerically with tolerance 8*sqrt(eps), 64*eps for "
               "quaternion<->matrix). The Euler theorems are about exact arithmetic with abstract trigonometric functions, the branch "
               "threshold lim is a parameter (<= 1). "
+              "The Euler/rotate definitions are tied to the source by the translator only (they are not executed by the model driver: no "
+              "exact trigonometry exists over the prime field); the real eulerAngles()/rotateE() are exercised numerically. "
               "The solve_ model is hand-written (K-tied), not regenerated; its inner jj-loop is modelled as the simultaneous row update "
               "it is equal to. Theorems assume field laws: they say nothing about rounding. Two defects were found and repaired in "
               "/repo (fix: commits ddac4e2 Matrix3 operator*, 59184ad eulerAngles near gimbal lock); witnesses in corpus/C20.")
